@@ -283,6 +283,17 @@ Section Indep.
   Theorem e2e_events_indep : forall cs1 cs2, concat cs1 = concat cs2 ->
     e2e_events py_int J json_loads cs1 = e2e_events py_int J json_loads cs2.
   Proof. intros cs1 cs2 H. rewrite !e2e_events_stream, (sse_text_indep _ _ H). reflexivity. Qed.
+
+  Theorem e2e_ndjson_stream : forall cs, e2e_ndjson J json_loads cs = iter_ndjson J json_loads cs.
+  Proof. intros cs. unfold e2e_ndjson. apply ndjson_indep. apply read_all_concat. Qed.
+
+  Theorem e2e_items_indep : forall h cs1 cs2, concat cs1 = concat cs2 ->
+    e2e_items py_int J json_loads h cs1 = e2e_items py_int J json_loads h cs2.
+  Proof.
+    intros h cs1 cs2 H. destruct h; cbn [e2e_items].
+    - apply e2e_events_indep. exact H.
+    - rewrite !e2e_ndjson_stream. apply ndjson_indep. exact H.
+  Qed.
 End Indep.
 
 (* on that path even the ITEMS of the byte iterator are independent of the chunking: the whole body, once *)
